@@ -58,9 +58,22 @@ def history_case(ctx, rng, idx, pending):
     share_cfg = rng.random() < 0.5
     hist_case['shared_config_objects'] = share_cfg
     shared = {}
+    # rows may reach the dumper *sparse*: dicts that leave out the keys of their null cells (JSON-style records, a user step
+    # that builds fresh dicts).  A missing cell is a null cell: it overwrites what an update finds in the table
+    sparse = rng.random() < 0.35
+    hist_case['rows_leave_out_null_cells'] = sparse
+
+    def sparse_step(rows):
+        for r in rows:
+            yield {k: v for k, v in r.items() if v is not None}
     for d in range(ndumps):
         mode = rng.choice(['rewrite', 'append', 'update', 'update'])
         rows = gen_rows(rng, rng.choice([0, 1, 2, 5, 9]), with_objects)
+        if sparse:
+            for r in rows:
+                for k in ('v', 'n'):
+                    if rng.random() < 0.3:
+                        r[k] = None
         if pk and mode == 'rewrite' and rng.random() < 0.5:
             # a rewrite recreates the table: the stream may come with another primary key from here on
             key_choice = rng.choice([['id'], ['id', 'grp'], ['grp']])
@@ -92,6 +105,9 @@ def history_case(ctx, rng, idx, pending):
             steps.append(DF.filter_rows(equals=[{'id': -1}]))
         if pk:
             steps.append(DF.set_primary_key(list(key_choice)))
+        if sparse:
+            # the column types are pinned (a sample that holds only nulls would infer another type): the history keeps one schema
+            steps += [DF.set_type('v', type='string'), DF.set_type('n', type='integer'), sparse_step]
         desc = {'mode': mode, 'keys': key_choice if mode == 'update' else None, 'keys_from_pk': pk, 'rows': canon._plain(rows),
                 'batch_size': bs, 'bloom': bloom}
         mk = (lambda steps=steps, cfg=cfg, bs=bs, bloom=bloom: Flow(*steps, DF.dump_to_sql(
